@@ -13,7 +13,9 @@ import (
 	"sync"
 	"time"
 
+	"github.com/dappledger/AnnChain/chain/app/evm"
 	wire "github.com/dappledger/AnnChain/gemmill/go-wire"
+	"github.com/dappledger/AnnChain/gemmill/types"
 
 	"verif/lib"
 	"verif/vnode"
@@ -238,17 +240,29 @@ func shortFn(f string) string {
 	return f
 }
 
-type postMortem struct {
-	StoreHeight int64  `json:"store_height"`
-	StateHeight int64  `json:"state_height"`
-	FirstDiff   int64  `json:"first_differing_height"`
-	Detail      string `json:"detail"`
-	Error       string `json:"error"`
+type pmBlock struct {
+	H          int64  `json:"h"`
+	Bytes      string `json:"bytes_digest"` // "" = not loadable
+	MetaHash   string `json:"meta_hash"`
+	SeenCommit string `json:"seen_commit_digest"`
 }
 
-// postmortemChild: postmortem <dump> <dir> <port> <out>: compares the dead node's block store with the source.
+type postMortem struct {
+	StoreHeight int64     `json:"store_height"`
+	StateHeight int64     `json:"state_height"`
+	AppHeight   int64     `json:"application_height"` // the application's own commit marker, read raw (-1 = unreadable)
+	AppHash     string    `json:"application_hash"`
+	StateApp    string    `json:"state_app_hash"`
+	FirstDiff   int64     `json:"first_differing_height"`
+	Detail      string    `json:"detail"`
+	Error       string    `json:"error"`
+	Blocks      []pmBlock `json:"blocks,omitempty"`
+}
+
+// postmortemChild: postmortem <dump> <dir> <port> <out>: compares the dead node's block store with the source
+// and records what is readable in it (the node process must be gone).
 func postmortemChild(args []string) {
-	var pm postMortem
+	pm := postMortem{AppHeight: -1}
 	defer func() {
 		b, _ := json.Marshal(pm)
 		ioutil.WriteFile(args[3], b, 0644)
@@ -271,20 +285,45 @@ func postmortemChild(args []string) {
 		pm.Error = err.Error()
 		return
 	}
-	defer st.Close()
 	pm.StoreHeight = st.Store.Height()
 	if st.State != nil {
 		pm.StateHeight = st.State.LastBlockHeight
+		pm.StateApp = hexs(st.State.AppHash)
 	}
-	for h := int64(1); h <= pm.StoreHeight && h <= c.top; h++ {
+	for h := int64(1); h <= pm.StoreHeight; h++ {
 		blk := st.Store.LoadBlock(h)
-		if blk == nil || !bytes.Equal(wire.BinaryBytes(blk), c.raw[h]) {
+		pb := pmBlock{H: h}
+		if blk != nil {
+			pb.Bytes = libHash(wire.BinaryBytes(blk))
+		}
+		if meta := st.Store.LoadBlockMeta(h); meta != nil {
+			pb.MetaHash = hexs(meta.Hash)
+		}
+		if sc := st.Store.LoadSeenCommit(h); sc != nil {
+			pb.SeenCommit = libHash(wire.BinaryBytes(sc))
+		}
+		pm.Blocks = append(pm.Blocks, pb)
+		if pm.FirstDiff == 0 && (h > c.top || blk == nil || !bytes.Equal(wire.BinaryBytes(blk), c.raw[h])) {
 			pm.FirstDiff = h
 			pm.Detail = fmt.Sprintf("stored block %d: %v", h, blk)
 			if len(pm.Detail) > 4000 {
 				pm.Detail = pm.Detail[:4000]
 			}
-			return
+		}
+	}
+	st.Close()
+	// the application's own commit marker, read raw (as checks/c06 does)
+	if conf, err := vnode.Conf(args[1], p); err == nil {
+		ba := &types.BaseApplication{}
+		if ba.InitBaseApplication(evm.AppName, conf.GetString("db_dir")) == nil {
+			lb := &evm.LastBlockInfo{AppHash: make([]byte, 0)}
+			if res, err := ba.LoadLastBlock(lb); err == nil {
+				pm.AppHeight = 0
+				if res != nil {
+					pm.AppHeight, pm.AppHash = res.(*evm.LastBlockInfo).Height, hexs(res.(*evm.LastBlockInfo).AppHash)
+				}
+			}
+			ba.Stop()
 		}
 	}
 }
@@ -451,15 +490,46 @@ func parent() {
 		nEp += len(s.Episodes)
 	}
 	run.Count("episodes_planned", int64(nEp))
-	lib.Parallel(len(scen), 12, func(i int) { runScenario(run, base, dumpFile, scen[i], 0) })
+	crs := buildCrashResume(c, len(scen))
+	if os.Getenv("C13_ONLY") == "crash-resume" { // development aid
+		scen = scen[:1]
+	}
+	h0s := map[int64]bool{}
+	for _, s := range crs {
+		h0s[s.H0] = true
+	}
+	lib.Parallel(len(scen)+len(crs), 12, func(i int) {
+		if i < len(scen) {
+			runScenario(run, base, dumpFile, scen[i], 0)
+		} else {
+			runCrashResume(run, base, dumpFile, crs[i-len(scen)], 0)
+		}
+	})
 
 	nm := len(catalogue())
-	run.SetRule(fmt.Sprintf("source chain: a real single-validator node (chain/core.NewNode) follows consensus live for %d heights with contract deployments/calls, key-value and plain txs and administrative requests (add_peer/update_node/remove_node through the Admin contract and precompile 0xfe) that change size, order and powers of the validator set (%d changes); the syncing node is the same real node with fast_sync=true and a non-validator key in a worker process (one per scenario); its peers are harness peers over TCP. Scenario list fixed by seed and tier (%d scenarios): 1 all-honest control; surgical scenarios running %d episodes = (mutation of the catalogue of %d) x (target height: quick 3 per mutation chosen by relation to a validator-set change at/before/after/far, thorough every applicable height), where the honest peer serves only below the tampered height and one of three malicious peers serves the tampered first block, second block (LastCommit) or forged pair; final scenarios tampering with the last block's LastCommit so that top-1 stays justified (that commit becomes the seen commit the node switches to consensus with), followed by a rebuild of the node on its directory; mix scenarios (every malicious answer tampered with probability p, delays, duplicates, unsolicited answers); silent-peer scenarios (15 s pool timeout). Non-trivial = distinct (mutation, position, target height, relation) whose tampered answer was delivered and whose outcome was observed.", top, len(c.changes), len(scen), nEp, nm))
+	run.SetRule(fmt.Sprintf("source chain: a real single-validator node (chain/core.NewNode) follows consensus live for %d heights with contract deployments/calls, key-value and plain txs and administrative requests (add_peer/update_node/remove_node through the Admin contract and precompile 0xfe) that change size, order and powers of the validator set (%d changes); the syncing node is the same real node with fast_sync=true and a non-validator key in a worker process (one per scenario); its peers are harness peers over TCP. Scenario list fixed by seed and tier (%d scenarios): 1 all-honest control; surgical scenarios running %d episodes = (mutation of the catalogue of %d) x (target height: quick 3 per mutation chosen by relation to a validator-set change at/before/after/far, thorough every applicable height), where the honest peer serves only below the tampered height and one of three malicious peers serves the tampered first block, second block (LastCommit) or forged pair; final scenarios tampering with the last block's LastCommit so that top-1 stays justified (that commit becomes the seen commit the node switches to consensus with), followed by a rebuild of the node on its directory; mix scenarios (every malicious answer tampered with probability p, delays, duplicates, unsolicited answers); silent-peer scenarios (15 s pool timeout). Non-trivial = distinct (mutation, position, target height, relation) whose tampered answer was delivered and whose outcome was observed. Crash-resume scenarios (%d crash points = armed after height h0 in %v x (quick: every ordinal 1..13 of one commit cycle of the fast-sync executer closure, thorough: every ordinal 1..70; plus godb.SetSync 1..6, godb.BatchWrite 1..3, ethdb.BatchWrite 1..4)): the node syncs from three honest peers at the top, the durable-write failpoint sends SIGKILL to the process immediately before the k-th durable write after State.Save of h0, post-mortem of the directory, then the same node is built and started again on that directory with fast_sync=true and the same peers and must reach top-1 within the 160 status rounds with the same stores, state and application state as the live node; non-trivial = distinct (h0, ordinal, site hit, post-mortem shape) that was actually reached.", top, len(c.changes), len(scen), nEp, nm, len(crs), sortedH0(h0s)))
 	run.Assume("the reference for 'a node that followed consensus live' is the source node itself: per-height state published by its engine, blocks and application state read through its query interface",
 		"fault model: the harness signs with keys of validators holding < 1/3 of the power, with keys of nobody, and with V0's key only votes V0 can have produced for the same block (prevote); it never signs another block with V0's key",
 		"re-admission to the pool: peers re-announce their height every 25 ms during episodes and every 250 ms (at most 160 times) in the final phase, a stand-in for the node's 10 s status-request ticker; the pool's own timers run in real time",
 		"the node leaving fast sync early because every peer claiming a greater height happened to be out of its pool at a one-second tick is repeated once and otherwise not judged (pool.IsCaughtUp trusts peers' claims; C08/C12 territory)",
-		"exactly-2/3 commits cannot be produced within the fault model on a chain whose single honest validator must hold > 2/3 to make progress alone")
+		"exactly-2/3 commits cannot be produced within the fault model on a chain whose single honest validator must hold > 2/3 to make progress alone",
+		"crash-resume: the process is killed by SIGKILL to itself from the durable-write failpoint (build tag verif), the operating system and LevelDB keep what was written before; the arming point is the debug line 'save to db' of the executer closure seen synchronously through the node's logger; no operator action between kill and restart (same directory, same configuration, fast_sync=true)")
+	// crash-resume: a crash point that was never reached is counted, not judged; enough must be reached
+	if len(crs) > 0 {
+		run.Require("crash_resume_points_reached_distinct", 8)
+		run.Require("crash_resume_sites_hit", 3)
+		run.Require("crash_resume_stability_comparisons", 8)
+		run.Require("crash_resume_post_mortem_shapes", 2) // killed with the block store ahead of the state, and level with it
+		run.Require("crash_resume_restart_syncs_completed", int64(len(crs)/2))
+		run.Require("crash_resume_restart_final_states_equal", int64(len(crs)/2))
+		run.Require("crash_resume_restart_final_application_states_equal", int64(len(crs)/2))
+	} else {
+		run.Inconclusive("no height of the source chain qualifies as crash-resume arming point (validator-set changes before and after it)")
+	}
+	if os.Getenv("C13_ONLY") == "crash-resume" {
+		run.Inconclusive("development run: crash-resume scenarios only")
+		finish()
+	}
 	total := int64(len(scen))
 	run.Require("controls_passed", 1)
 	nFinal := int64(0)
@@ -479,4 +549,19 @@ func parent() {
 	run.Require("mutations_judged", int64(nm*8/10))
 	run.Require("cells", int64(nm*lib.Pick(12, 25)/10))
 	finish()
+}
+
+func sortedH0(m map[int64]bool) []int64 {
+	var out []int64
+	for h := range m {
+		out = append(out, h)
+	}
+	for i := range out {
+		for j := i + 1; j < len(out); j++ {
+			if out[j] < out[i] {
+				out[i], out[j] = out[j], out[i]
+			}
+		}
+	}
+	return out
 }
